@@ -1,9 +1,20 @@
 #!/bin/sh
-# Build goatsim from ./sim (next to this script) against /repo's current working tree with the
-# verif hooks on. Exit 2 on any build trouble (never a VIOLATION).
+# Build goatsim from ./sim (next to this script) against the goatlang working tree with the
+# verif hooks on. The tree is /repo unless VERIF_REPO names another checkout (used only to try
+# seeded changes in scratch worktrees, never by the registered checks). Exit 2 on build trouble.
 DIR=$(cd "$(dirname "$0")" && pwd)
+REPO="${VERIF_REPO:-/repo}"
+BIN="${VERIF_BIN:-$DIR/bin/goatsim}"
 export GOFLAGS=-mod=mod GOPROXY=off GOSUMDB=off GOTOOLCHAIN=local CGO_ENABLED=0
 cd "$DIR/sim" || exit 2
-cp /repo/go.sum go.sum 2>/dev/null || true
-mkdir -p "$DIR/bin"
-go build -tags verif -o "$DIR/bin/goatsim" ./cmd/goatsim || { echo "goatsim: INFRASTRUCTURE: build failed" >&2; exit 2; }
+mkdir -p "$(dirname "$BIN")"
+if [ "$REPO" = /repo ]; then
+  cp /repo/go.sum go.sum 2>/dev/null || true
+  go build -tags verif -o "$BIN" ./cmd/goatsim || { echo "goatsim: INFRASTRUCTURE: build failed" >&2; exit 2; }
+else
+  MOD=$(mktemp /tmp/goatsim-mod.XXXXXX) || exit 2
+  sed "s|=> /repo|=> $REPO|" go.mod > "$MOD.mod"; cp "$REPO/go.sum" "$MOD.sum" 2>/dev/null || cp go.sum "$MOD.sum"
+  go build -modfile="$MOD.mod" -tags verif -o "$BIN" ./cmd/goatsim; rc=$?
+  rm -f "$MOD" "$MOD.mod" "$MOD.sum"
+  [ $rc -eq 0 ] || { echo "goatsim: INFRASTRUCTURE: build failed" >&2; exit 2; }
+fi
